@@ -161,6 +161,14 @@ def parse_value(text: str):
     return v
 
 
+def parse_value_at(text: str, pos: int):
+    """Parse one value starting at text[pos]; returns (value, end position)."""
+    p = _P(text)
+    p.i = pos
+    v = p.value()
+    return v, p.i
+
+
 def parse_state(text: str) -> dict:
     """Parse a conjunction '/\\ x = v /\\ y = w' (newlines optional) into {var: value}."""
     p = _P(text)
